@@ -10,26 +10,24 @@ use crate::{
 };
 
 struct MarkData {
+    pub func: Rc<Function>,
+    pub entry: Rc<CfgNode>,
     pub found: RegisterSet,
     pub instructions: Vec<Rc<CfgNode>>,
-    pub returns: Rc<CfgNode>,
+    /// The return instructions the function reaches, in program order
+    pub returns: Vec<Rc<CfgNode>>,
 }
 
 pub struct FunctionMarkupPass;
 
 impl FunctionMarkupPass {
-    fn mark_reachable(
-        cfg: &Cfg,
-        entry: &Rc<CfgNode>,
-        func: &Rc<Function>,
-    ) -> Result<MarkData, Box<CfgError>> {
+    /// Collect what a function reaches from its entry. Nothing is rewritten
+    /// here: the edges followed are the control-flow edges of the program.
+    fn mark_reachable(cfg: &Cfg, entry: &Rc<CfgNode>, func: &Rc<Function>) -> MarkData {
         let mut defs = RegisterSet::new(); // Registers this function writes to
         let mut instructions = vec![];
 
         // Traverse the CFG for all nodes reachable from the entry point.
-        // Returns are rewritten only after the traversal: rewriting a node
-        // changes its key, which the traversal (and every set holding the
-        // node) relies on.
         for node in cfg.iter_nexts(Rc::clone(entry)) {
             // Mark the node as being a part of the given function
             instructions.push(Rc::clone(&node));
@@ -46,70 +44,50 @@ impl FunctionMarkupPass {
             .iter()
             .map(Rc::as_ptr)
             .collect::<HashSet<*const CfgNode>>();
-        let found_returns = cfg
+        let returns = cfg
             .iter()
             .filter(|node| node.is_return() && reachable.contains(&Rc::as_ptr(node)))
             .collect::<Vec<_>>();
 
-        // A return that is already the exit of another function must stay a
-        // return: that function's exit would otherwise stop being one. Prefer
-        // such a return as the exit, so that overlapping functions share it.
-        let is_exit_of_other_function = |node: &Rc<CfgNode>| {
-            node.functions()
-                .iter()
-                .any(|other| !Rc::ptr_eq(other, func) && Rc::ptr_eq(&other.exit(), node))
-        };
-        let returns = found_returns
-            .iter()
-            .find(|node| is_exit_of_other_function(node))
-            .or_else(|| found_returns.first())
-            .cloned();
-
-        if let Some(ref prev_ret) = returns {
-            // Set every other return to be a jump to the chosen return.
-            for found_ret in found_returns
-                .iter()
-                .filter(|node| !Rc::ptr_eq(node, prev_ret) && !is_exit_of_other_function(node))
-            {
-                // Fix the prevs & nexts of both returns
-                found_ret.clear_nexts();
-                found_ret.insert_next(Rc::clone(prev_ret));
-                prev_ret.insert_prev(Rc::clone(found_ret));
-
-                // Convert the found return into a jump
-                let info = Token::new(
-                    TokenType::Symbol("return".to_string()),
-                    found_ret.raw_text(),
-                    found_ret.range(),
-                    found_ret.file(),
-                );
-
-                let inst = With::new(JumpLinkType::Jal, info.clone());
-                let rd = With::new(Register::X0, info.clone());
-                let name = With::new(LabelString::new("__return__"), info.clone());
-                let new_node =
-                    ParserNode::new_jump_link(inst, rd, name, prev_ret.node().token().clone());
-                #[allow(unused_must_use)]
-                found_ret.set_node(new_node);
-            }
+        MarkData {
+            func: Rc::clone(func),
+            entry: Rc::clone(entry),
+            found: defs,
+            instructions,
+            returns,
         }
+    }
 
-        if let Some(ret) = returns {
-            Ok(MarkData {
-                found: defs,
-                instructions,
-                returns: ret,
-            })
-        }
-        // TODO: Handle functions with no return statements
-        else {
-            Err(Box::new(CfgError::FunctionWithoutReturn(entry.node())))
-        }
+    /// Turn a return into a jump to the exit of its function.
+    fn redirect_return(found_ret: &Rc<CfgNode>, exit: &Rc<CfgNode>) {
+        // Fix the prevs & nexts of both returns
+        found_ret.clear_nexts();
+        found_ret.insert_next(Rc::clone(exit));
+        exit.insert_prev(Rc::clone(found_ret));
+
+        // Convert the found return into a jump
+        let info = Token::new(
+            TokenType::Symbol("return".to_string()),
+            found_ret.raw_text(),
+            found_ret.range(),
+            found_ret.file(),
+        );
+
+        let inst = With::new(JumpLinkType::Jal, info.clone());
+        let rd = With::new(Register::X0, info.clone());
+        let name = With::new(LabelString::new("__return__"), info.clone());
+        let new_node = ParserNode::new_jump_link(inst, rd, name, exit.node().token().clone());
+        #[allow(unused_must_use)]
+        found_ret.set_node(new_node);
     }
 }
 
 impl GenerationPass for FunctionMarkupPass {
     fn run(cfg: &mut Cfg) -> Result<(), Box<CfgError>> {
+        // Phase 1: what does every function reach? All functions are looked at
+        // before any return is rewritten, so that no function follows an edge
+        // that only exists because another one was processed before it.
+        let mut marked = Vec::new();
         for entry in &cfg.clone() {
             // Skip all nodes that are not entry points
             if !entry.is_function_entry() {
@@ -132,20 +110,61 @@ impl GenerationPass for FunctionMarkupPass {
             }
 
             // Mark all CFG nodes that are reachable from this entry point
-            // FIXME: What to do if there is more than one return
-            match Self::mark_reachable(cfg, &entry, &Rc::clone(&func)) {
-                Ok(data) => {
-                    #[allow(unused_must_use)]
-                    func.set_defs(data.found);
-                    #[allow(unused_must_use)]
-                    func.set_nodes(data.instructions);
-                    #[allow(unused_must_use)]
-                    func.set_exit(data.returns);
-                }
-                Err(e) => {
-                    return Err(e);
+            let data = Self::mark_reachable(cfg, &entry, &func);
+            // TODO: Handle functions with no return statements
+            if data.returns.is_empty() {
+                return Err(Box::new(CfgError::FunctionWithoutReturn(entry.node())));
+            }
+            marked.push(data);
+        }
+
+        // Phase 2: every function gets one exit. Of its returns, the one that
+        // the most functions reach is taken (the first in the program among
+        // equals): functions that share a return then share it as their exit.
+        let shared_by = |ret: &Rc<CfgNode>| {
+            marked
+                .iter()
+                .filter(|data| data.returns.iter().any(|r| Rc::ptr_eq(r, ret)))
+                .count()
+        };
+        for data in &marked {
+            let mut exit = &data.returns[0];
+            for ret in &data.returns[1..] {
+                if shared_by(ret) > shared_by(exit) {
+                    exit = ret;
                 }
             }
+            #[allow(unused_must_use)]
+            data.func.set_defs(data.found);
+            #[allow(unused_must_use)]
+            data.func.set_nodes(data.instructions.clone());
+            #[allow(unused_must_use)]
+            data.func.set_exit(Rc::clone(exit));
+        }
+
+        // Phase 3: every other return becomes a jump to the exit - unless it is
+        // the exit of some function, or its functions do not agree on where it
+        // should lead (it then stays a return of its own).
+        let exit_of_a_function = |node: &Rc<CfgNode>| {
+            marked
+                .iter()
+                .any(|data| Rc::ptr_eq(&data.func.exit(), node))
+        };
+        for data in &marked {
+            let exit = Rc::clone(&data.func.exit());
+            for ret in &data.returns {
+                if Rc::ptr_eq(ret, &exit) || !ret.is_return() || exit_of_a_function(ret) {
+                    continue;
+                }
+                let owners_agree = ret
+                    .functions()
+                    .iter()
+                    .all(|owner| Rc::ptr_eq(&owner.exit(), &exit));
+                if owners_agree {
+                    Self::redirect_return(ret, &exit);
+                }
+            }
+            let _ = &data.entry;
         }
 
         Ok(())
